@@ -176,12 +176,12 @@ def impl_parse(case):
             p.read()
             rows = [[str(s), [bits(x) for x in row]] for s, row in zip(p.samples, np.asarray(p.data))]
             names = list(p.names)
-        except ValueError as e:
-            if "not enough values to unpack" in str(e):
-                rows, names = [], list(p.names)  # no parsable row at all
-            else:
-                raise
-    return {"names": names, "rows": rows, "errors": sum(1 for l, _ in cap.records if l == "ERROR")}
+            raised = False
+        except ValueError:
+            # a file without a single parsable row: the statement does not say whether that is an empty table or a refusal
+            # (judged in the oracle: a ValueError is only acceptable when no row of the file is parsable)
+            rows, names, raised = [], list(p.names) if p.names is not None else None, True
+    return {"names": names, "rows": rows, "raised": raised, "errors": sum(1 for l, _ in cap.records if l == "ERROR")}
 
 
 def model_obs_parse(case, resp):
@@ -192,6 +192,8 @@ def model_obs_parse(case, resp):
 def equal_parse(a, b):
     if "error" in a:
         return False
+    if a.get("raised"):
+        return b["rows"] == []
     return a["names"] == b["names"] and a["rows"] == b["rows"]
 
 
@@ -214,6 +216,8 @@ def oracle_parse(case, obs):
             bad += 1
             continue
         want.append([l[0], [bits(v) for v in vals]])
+    if obs.get("raised") and want:
+        return f"read() raised ValueError although the file holds the parsable rows {want}"
     if obs["rows"] != want:
         return f"rows read {obs['rows']}; the parsable rows of the file are {want} (rows with a non-numeric cell must be skipped, never shifted)"
     if bad and not obs["errors"]:
